@@ -263,6 +263,12 @@ def run_check(prop, tier, seed):
                 'property': prop.id, 'what': v['what'], 'input': v['input'],
                 'broken': [{'kind': f['kind'], 'name': f['name']} for f in failures[:20]]})
             print(f'VIOLATION property={prop.id} replay={path}')
+            print(f'  what: {str(v["what"])[:600]}')
+            detail = v.get('input') or {}
+            if isinstance(detail, dict):
+                hint = detail.get('line') or (detail.get('meta') or {}).get('html') or detail.get('html') or ''
+                if hint:
+                    print(f'  input: {str(hint)[:1500]}')
             printed += 1
     elif failures:
         path = write_replay(prop.id, seed, 0, {
